@@ -67,7 +67,7 @@ def ws2dwcvp(y, nodata, p, llas, robust, out, lopt):
         # Initialising list for writing to
         robust_gcv = []
 
-        gcv_temp = [1e15, 0]
+        gcv_temp = [np.inf, 0]
         for it in range(r_its):
             if it > 1:
                 lambda_range = np.array([robust_gcv[1][1]])
@@ -196,7 +196,7 @@ def _ws2dwcvp(y, w, p, llas, robust):
     # Initialising list for writing to
     robust_gcv = []
 
-    gcv_temp = [1e15, 0]
+    gcv_temp = [np.inf, 0]
     for it in range(r_its):
         if it > 1:
             lambda_range = np.array([robust_gcv[1][1]])
